@@ -243,7 +243,38 @@ def sweep(seed=0, n_random=40, budget_s=90, stop_after=5):
                 pr = [p.replace(root, "") for p in pr]
                 bad.append({"forms": forms, "inner": inner, "problems": pr[:3], "signature": "tree:" + json.dumps([forms, inner]), "root_cause": root_cause(forms, inner, pr)})
     n_pth, bad_pth = pth_scenarios(seed)
-    return {"cases": n + n_pth, "bad": bad + bad_pth}
+    n_bp, bad_bp = by_path_scenarios()
+    return {"cases": n + n_pth + n_bp, "bad": bad + bad_pth + bad_bp}
+
+
+def by_path_scenarios():
+    """A package requested by the path of its top-level directory when no configured search path is above it: the tree is the one found by dotted name with the
+    directory's parent as the first search path (the files under the requested directory), whatever the configured paths hold -- in particular a package of
+    the same name."""
+    problems, n = [], 0
+    with tempfile.TemporaryDirectory() as root:
+        root = Path(root)
+        for base, extra in (("work", "new"), ("site", "old")):
+            d = root / base / "pkg"
+            (d / "sub").mkdir(parents=True)
+            (d / "__init__.py").write_text(f"origin = {base!r}\n")
+            (d / f"{extra}.py").write_text("x = 1\n")
+            (d / "sub" / "__init__.py").write_text("")
+            (d / "sub" / "leaf.py").write_text("y = 2\n")
+        (root / "empty").mkdir()
+        want = griffe_tree([str(root / "work")], "pkg")
+        for configured in ([], [str(root / "empty")], [str(root / "site")], [str(root / "empty"), str(root / "site")]):
+            for request in (str(root / "work" / "pkg"), root / "work" / "pkg"):
+                n += 1
+                try:
+                    got = griffe_tree(list(configured), request)
+                except BaseException as e:  # noqa: BLE001
+                    problems.append(f"requesting work/pkg by path with search paths {[c.replace(str(root), '') for c in configured]} raised {type(e).__name__}")
+                    continue
+                if got != want:
+                    problems.append(f"requesting work/pkg by path with search paths {[c.replace(str(root), '') for c in configured]} loads "
+                                    f"{sorted(v[1].replace(str(root), '') if isinstance(v[1], str) else str(v[1]) for v in got.values())[:3]}, not the files under the requested directory")
+    return n, [{"forms": ["by_path"], "inner": [], "problems": problems[:3], "signature": "by_path:" + problems[0][:80], "root_cause": []}] if problems else []
 
 
 def pth_scenarios(seed=0):
